@@ -88,13 +88,13 @@ Proof.
   repeat split; try reflexivity. all_tasks.
 Qed.
 
-(* client: close() at time 0 with close timeout 9; a text frame at time 8 re-arms the timeout, so at time 16
-   close() is still blocked, its deadline now 17 *)
+(* close() at time 0 with close timeout 9; a text frame at time 8 does NOT re-arm the timeout: by time 16 close()
+   has returned with 1006 — on the client (since fix 7b896a4) as on the server *)
 Definition w_client_restart : list (list event) :=
   [[ECall 0 (OpClose 1000)]; [EAdvance 8]; [EPeer (PMsg MText)]; [EAdvance 8]].
-Lemma witness_client_deadline_extended :
+Lemma witness_client_deadline_kept :
   exists s, reach cfgC s /\ now s = now (init cfgC) + 16 /\ c_close_tmo cfgC = 9 /\
-            t_pc (tasks s 0) = PCloseRead KTop /\ t_tmo (tasks s 0) = Some (now (init cfgC) + 17) /\ ready s = [].
+            t_pc (tasks s 0) = PDone (RBool true) /\ close_code s = Some ws_close_abnormal /\ tr_closing s = true.
 Proof.
   destruct (play cfgC (init cfgC) w_client_restart) as [s|] eqn:E; [|vm_compute in E; discriminate].
   exists s. split; [eapply reach_play; [apply reach_init|exact E]|].
@@ -102,7 +102,7 @@ Proof.
   repeat split; reflexivity.
 Qed.
 
-(* the same history on the server: the deadline stays 9 and close() has returned by time 16 *)
+(* the same history on the server *)
 Lemma witness_server_deadline_kept :
   exists s, reach cfgS s /\ now s = now (init cfgS) + 16 /\
             t_pc (tasks s 0) = PDone (RBool true) /\ close_code s = Some ws_close_abnormal /\ tr_closing s = true.
